@@ -280,3 +280,339 @@ def c01_r2(ctx):
                    loc=ctx.nodeloc(f, call))
     if n_sites < 4:
         raise AnalysisError("only %d call sites of IntersectionMatcher._find_next found (5 confirmed by hand)" % n_sites)
+
+
+# --------------------------------------------------------------------- R3
+@rule("C01", "R3", "K1", "deleted documents are filtered at every posting source and document iterator",
+      min_instances=6, also=("C07",),
+      clause="SegmentReader.postings wraps the term matcher in an excluding FilterMatcher over the segment's "
+             "deleted set whenever that set is non-empty; all_doc_ids tests is_deleted and the stored-field "
+             "iterators go through it; Every draws ids from all_doc_ids()/postings; Not passes the reader's "
+             "is_deleted as `missing`; doc_count = doc_count_all - deleted_count.")
+def c01_r3(ctx):
+    prog = ctx.prog
+    f = prog.method("reading.SegmentReader", "postings", inherited=False)
+    ctx.saw(f)
+    defs = norm.definitions(f.node)
+    al = norm.aliases(f.node)
+
+    def dcanon(e):
+        return norm.canon(norm.substitute(e, {k: v for k, v in defs.items() if k == "deleted"}), al)
+
+    fm_calls = [c for c in norm.calls_in(f.node) if norm.call_name(c) in ("FilterMatcher", "ExcludeMatcher")]
+    good_fm = []
+    for c in fm_calls:
+        ids = c.args[1] if len(c.args) > 1 else None
+        excl = [k for k in c.keywords if k.arg == "exclude"]
+        is_excl = norm.call_name(c) == "ExcludeMatcher" or (excl and isinstance(excl[0].value, ast.Constant)
+                                                            and excl[0].value.value is True) or \
+            (len(c.args) > 2 and isinstance(c.args[2], ast.Constant) and c.args[2].value is True)
+        if ids is not None and dcanon(ids) == "self.deleted_docs_set" and is_excl:
+            good_fm.append(c)
+    ctx.ob(f, len(good_fm) >= 1, "builds FilterMatcher(matcher, <deleted set>, exclude=True)",
+           detail="FilterMatcher calls: %s" % [norm.canon(c) for c in fm_calls])
+
+    def classify(func, call, res, concrete):
+        if call in good_fm:
+            return "filter"
+        return None
+
+    def edge_event(func, node, label):
+        if node.kind == "test" and dcanon(node.ast) == "self.deleted_docs_set":
+            return "%s:deleted" % label[0]
+        return None
+
+    def stmt_event(func, node):
+        if node.kind == "return":
+            v = node.ast.value
+            if isinstance(v, ast.Name):
+                return "return:" + v.id
+            return "return:<expr>"
+        return None
+
+    tr = Tracer(prog, calls_of(prog), classify, follow=lambda *a: [], stmt_event=stmt_event,
+                edge_event=edge_event, max_depth=0, track_raises=False)
+    res = tr.traces(f, None)
+    bad = None
+    for t in res["normal"]:
+        if not any(e.startswith("return:") for e in t):
+            continue
+        if "filter" in t or "F:deleted" in t:
+            continue
+        bad = t
+    ctx.ob(f, bool(res["normal"]) and bad is None,
+           "every returning path applies the deletion filter unless the deleted set is empty",
+           detail=fmt(bad) if bad else "")
+    # the filtered value is what is returned: the FilterMatcher result is assigned to the returned local
+    ret_names = set(e.split(":", 1)[1] for t in res["normal"] for e in t if e.startswith("return:"))
+    assigned = set()
+    for st in ast.walk(f.node):
+        if isinstance(st, ast.Assign) and st.value in good_fm:
+            for t_ in st.targets:
+                if isinstance(t_, ast.Name):
+                    assigned.add(t_.id)
+        if isinstance(st, ast.Return) and st.value in good_fm:
+            assigned.add("<expr>")
+    ctx.ob(f, bool(ret_names) and ret_names <= assigned | {"<expr>"} and bool(assigned),
+           "the value returned is the one the FilterMatcher was assigned to",
+           detail="returned %s, filter assigned to %s" % (sorted(ret_names), sorted(assigned)))
+    # deleted_docs_set comes from the per-document reader's deleted docs
+    dd = prog.method("reading.SegmentReader", "deleted_docs_set", inherited=False)
+    rets = [norm.canon(r.value) for r in returns_of(dd) if r.value is not None]
+    ctx.ob(dd, rets == ["frozenset(self._perdoc.deleted_docs())"], "deleted_docs_set = frozenset(per-doc reader's deleted docs)",
+           detail=str(rets))
+    # document iterators
+    pdr = prog.cls("codec.base.PerDocumentReader")
+    for c in prog.subclasses(pdr):
+        g = c.methods.get("all_doc_ids")
+        if g is None:
+            continue
+        ctx.saw(g)
+        txt = norm.stmt_text(g.node)
+        delegating = any(norm.call_name(x) == "all_doc_ids" for x in norm.calls_in(g.node))
+        tests = "is_deleted" in txt
+        ctx.ob(g, tests or delegating, "all_doc_ids() skips deleted documents (tests is_deleted or delegates to a reader that does)")
+        for m in ("iter_docs", "all_stored_fields"):
+            h = prog.lookup(c, m)
+            if h is not None and h.cls is c or (h is not None and c is pdr):
+                its = [norm.canon(n.iter) for n in ast.walk(h.node) if isinstance(n, (ast.For, ast.comprehension))]
+                ctx.ob(h, any("all_doc_ids()" in i for i in its), "%s iterates all_doc_ids()" % m, detail=str(its))
+    ir = prog.cls("reading.IndexReader")
+    for c in prog.subclasses(ir):
+        if c.short == "reading.EmptyReader":
+            continue  # reader of an index without segments: has no documents at all
+        for m in ("all_doc_ids", "iter_docs", "all_stored_fields"):
+            g = c.methods.get(m)
+            if g is None or is_abstract_body(g):
+                continue
+            ctx.saw(g)
+            txt = norm.stmt_text(g.node)
+            ok = ("is_deleted" in txt) or any(norm.call_name(x) in ("all_doc_ids", "iter_docs", "all_stored_fields")
+                                              for x in norm.calls_in(g.node))
+            ctx.ob(g, ok, "%s filters deleted documents or delegates to an iterator that does" % m)
+    # Every / Not
+    ev = prog.method("query.qcore.Every", "matcher", inherited=False)
+    srcs = [norm.canon(c) for c in norm.calls_in(ev.node) if norm.call_name(c) in ("all_doc_ids", "postings", "xrange", "range", "doc_count_all")]
+    ctx.ob(ev, any("all_doc_ids" in s for s in srcs) and not any(s.startswith(("xrange(", "range(")) or "doc_count_all" in s for s in srcs),
+           "Every draws document ids from reader.all_doc_ids() / postings (both deletion-filtered), never from a raw range",
+           detail=str(srcs))
+    nt = prog.method("query.wrappers.Not", "matcher", inherited=False)
+    inv = [c for c in norm.calls_in(nt.node) if norm.call_name(c) == "InverseMatcher"]
+    ok = False
+    if len(inv) == 1:
+        init = prog.method("matching.wrappers.InverseMatcher", "__init__")
+        m, probs = bind_args(inv[0], init)
+        ok = bool(m) and not probs and norm.canon(m.get("missing")) == "reader.is_deleted" and \
+            norm.canon(m.get("limit")) == "reader.doc_count_all()"
+    ctx.ob(nt, ok, "Not builds InverseMatcher(child, reader.doc_count_all(), missing=reader.is_deleted)")
+    # counts
+    sg = prog.method("codec.base.Segment", "doc_count", inherited=False)
+    rets = [norm.canon(r.value) for r in returns_of(sg) if r.value is not None]
+    ctx.ob(sg, rets == ["(self.doc_count_all() - self.deleted_count())"], "Segment.doc_count = doc_count_all - deleted_count",
+           detail=str(rets))
+
+
+# --------------------------------------------------------------------- R4
+SINKS = ("append", "add", "_collect", "heappush", "heapreplace", "insort")
+
+
+@rule("C01", "R4", "K11", "segment-local document numbers are globalised with the offset of their own segment",
+      min_instances=8,
+      clause="docs_for_query and MultiMatcher add the offset bound in the same iteration; every Collector.collect "
+             "records only self.offset + sub_docnum (never the raw sub-searcher number); set_subsearcher stores "
+             "the offset it is given.")
+def c01_r4(ctx):
+    prog = ctx.prog
+    # docs_for_query
+    f = prog.method("searching.Searcher", "docs_for_query", inherited=False)
+    ctx.saw(f)
+    ok = False
+    detail = []
+    for lp in ast.walk(f.node):
+        if isinstance(lp, ast.For) and norm.canon(lp.iter) == "self.subsearchers" and isinstance(lp.target, ast.Tuple) \
+                and len(lp.target.elts) == 2:
+            sub, off = [norm.canon(e) for e in lp.target.elts]
+            for inner in ast.walk(lp):
+                if isinstance(inner, ast.For) and inner is not lp:
+                    v = norm.canon(inner.target)
+                    uses_sub = sub in norm.names_in(inner.iter)
+                    ys = [norm.canon(y.value) for y in ast.walk(inner) if isinstance(y, ast.Yield)]
+                    detail.append((norm.canon(inner.iter), ys))
+                    want = norm.canon(norm.parse_expr("%s + %s" % (v, off)))
+                    ok = uses_sub and ys == [want]
+    ctx.ob(f, ok, "yields sub-searcher docnum + that sub-searcher's offset", detail=str(detail))
+    # MultiMatcher
+    mm = "matching.wrappers.MultiMatcher"
+    idf = prog.method(mm, "id", inherited=False)
+    rets = [norm.deep_canon(r.value, idf.node) for r in returns_of(idf)]
+    ctx.ob(idf, rets == ["(self.matchers[self.current].id() + self.offsets[self.current])"],
+           "id() = current sub-matcher id + offset of the same index", detail=str(rets))
+    ai = prog.method(mm, "all_ids", inherited=False)
+    ok = False
+    for lp in ast.walk(ai.node):
+        if isinstance(lp, ast.For) and norm.canon(lp.iter) == "enumerate(self.matchers)":
+            i, mr = [norm.canon(e) for e in lp.target.elts]
+            ys = [norm.deep_canon(y.value, ai.node) for y in ast.walk(lp) if isinstance(y, ast.Yield)]
+            inner = [n for n in ast.walk(lp) if isinstance(n, ast.For) and n is not lp]
+            if inner:
+                v = norm.canon(inner[0].target)
+                ok = ys == [norm.canon(norm.parse_expr("%s + self.offsets[%s]" % (v, i)))] and \
+                    norm.canon(inner[0].iter) == "%s.all_ids()" % mr
+    ctx.ob(ai, ok, "all_ids() adds offsets[i] of the enumerated sub-matcher i")
+    sk = prog.method(mm, "skip_to", inherited=False)
+    al = norm.aliases(sk.node)
+    skc = [c for c in norm.calls_in(sk.node) if norm.call_name(c) == "skip_to"]
+    ok = False
+    if len(skc) == 1 and skc[0].args:
+        recv = norm.deep_canon(norm.receiver(skc[0]), sk.node)
+        arg = norm.deep_canon(skc[0].args[0], sk.node)
+        ok = recv == "self.matchers[self.current]" and arg == "(id - self.offsets[self.current])"
+    ctx.ob(sk, ok, "skip_to() subtracts the current sub-matcher's own offset from the target",
+           detail="%s.skip_to(%s)" % (recv, arg) if skc and skc[0].args else "")
+    # collectors
+    cbase = prog.cls("collectors.Collector")
+    n = 0
+    for c in prog.subclasses(cbase):
+        for m in ("collect", "collect_matches"):
+            g = c.methods.get(m)
+            if g is None or is_abstract_body(g):
+                continue
+            ctx.saw(g)
+            params = g.params[1:]
+            p = params[0] if params else None
+            # locals holding sub-searcher document numbers: the parameter, and loop
+            # variables over self.matches() / child.matches()
+            raw = set([p] if p and m == "collect" else [])
+            for lp in ast.walk(g.node):
+                if isinstance(lp, ast.For) and isinstance(lp.target, ast.Name) and \
+                        any(norm.call_name(x) == "matches" for x in norm.calls_in(lp.iter)):
+                    raw.add(lp.target.id)
+            if not raw:
+                continue
+            n += 1
+            bad = []
+            for call in norm.calls_in(g.node):
+                nm = norm.call_name(call)
+                if nm not in SINKS:
+                    continue
+                for a in call.args:
+                    for nd in ast.walk(a):
+                        if isinstance(nd, ast.Name) and nd.id in raw:
+                            # allowed only inside  offset + raw
+                            bad.append(norm.canon(call))
+            # global_docnum definitions
+            gdefs = []
+            for st in ast.walk(g.node):
+                if isinstance(st, ast.Assign) and any(isinstance(t_, ast.Name) and "global" in t_.id for t_ in st.targets):
+                    gdefs.append(norm.canon(st.value))
+            okdefs = all(any(v == norm.canon(norm.parse_expr(tmpl % r)) for r in raw
+                             for tmpl in ("self.offset + %s", "self.child.offset + %s", "child.offset + %s", "offset + %s"))
+                         for v in gdefs)
+            # sinks that receive offset+raw inline are fine: re-check bad entries
+            realbad = []
+            for call in norm.calls_in(g.node):
+                if norm.call_name(call) not in SINKS:
+                    continue
+                for a in call.args:
+                    stripped = _strip_offset_sums(a, raw)
+                    if any(isinstance(nd, ast.Name) and nd.id in raw for nd in ast.walk(stripped)):
+                        realbad.append(norm.canon(call))
+            ctx.ob(g, not realbad and okdefs, "records only offset + sub_docnum, never the raw sub-searcher document number",
+                   detail="raw use in %s; global defs %s" % (realbad, gdefs) if (realbad or not okdefs) else "")
+    if n < 5:
+        raise AnalysisError("only %d collector collect methods analysed" % n)
+    ss = prog.method("collectors.Collector", "set_subsearcher", inherited=False)
+    ok = any(isinstance(st, ast.Assign) and norm.canon(st.targets[0]) == "self.offset" and norm.canon(st.value) == "offset"
+             for st in ast.walk(ss.node))
+    ctx.ob(ss, ok, "set_subsearcher stores the offset it is given in self.offset")
+    # search_with_collector passes each sub-searcher with its own offset
+    sw = prog.method("searching.Searcher", "search_with_collector", inherited=False)
+    run = prog.method("collectors.Collector", "run", inherited=False)
+    ok = False
+    for lp in ast.walk(run.node):
+        if isinstance(lp, ast.For) and isinstance(lp.target, ast.Tuple) and len(lp.target.elts) == 2:
+            sub, off = [norm.canon(e) for e in lp.target.elts]
+            for c in norm.calls_in(lp):
+                if norm.call_name(c) == "set_subsearcher" and [norm.canon(a) for a in c.args] == [sub, off]:
+                    ok = True
+    ctx.ob(run, ok, "run() hands each leaf searcher to set_subsearcher together with its own offset")
+
+
+def _strip_offset_sums(expr, raw):
+    """Replace every `<offset> + <raw>` by a constant so remaining raw names are unglobalised uses."""
+    class T(ast.NodeTransformer):
+        def visit_BinOp(self, node):
+            self.generic_visit(node)
+            if isinstance(node.op, ast.Add):
+                l, r = node.left, node.right
+                for a, b in ((l, r), (r, l)):
+                    if isinstance(a, ast.Name) and a.id in raw and "offset" in norm.canon(b):
+                        return ast.Constant(value=0)
+            return node
+    import copy
+    return T().visit(copy.deepcopy(expr))
+
+
+# --------------------------------------------------------------------- R5
+@rule("C01", "R5", "K1", "ArrayUnionMatcher buffers a new part only at a matching position (or scans afterwards)",
+      min_instances=4, also=("C11",),
+      clause="In ArrayUnionMatcher every _read_part() is preceded by `_docnum = self._min_id()` (the smallest "
+             "live sub-matcher id, a matching document by construction) or followed by a _find_next() scan on "
+             "every path; otherwise the matcher reports a position where no clause matches.")
+def c01_r5(ctx):
+    prog = ctx.prog
+    cls = prog.cls("matching.combo.ArrayUnionMatcher")
+
+    def classify(func, call, res, concrete):
+        if isinstance(call.func, ast.Attribute) and norm.canon(call.func.value) == "self":
+            n = call.func.attr
+            if n == "_read_part":
+                return "read_part"
+            if n == "_find_next" and func.name != "_find_next":
+                return "scan"
+        return None
+
+    def stmt_event(func, node):
+        a = node.ast
+        if node.kind == "stmt" and isinstance(a, (ast.Assign, ast.AugAssign)):
+            tg = a.targets if isinstance(a, ast.Assign) else [a.target]
+            for t in tg:
+                if norm.canon(t) == "self._docnum":
+                    if isinstance(a, ast.Assign) and norm.canon(a.value) in ("self._min_id()", "self._doccount"):
+                        return "pos:min"
+                    return "pos:other"
+        return None
+
+    def edge_event(func, node, label):
+        if node.kind == "test" and ".is_active()" in norm.canon(node.ast) and label[0] == "F":
+            return "inactive"
+        return None
+
+    def delta(state, ev):
+        # M: position is a matching id / nothing pending; O: position set to an unverified value;
+        # R: a part was buffered at an unverified position
+        if state == "X":
+            return "X"
+        if ev == "pos:min":
+            return "M"
+        if ev == "pos:other":
+            return "O"
+        if ev == "read_part":
+            return "R" if state in ("O", "R") else "M"
+        if ev == "scan":
+            return "M"
+        if ev == "inactive":
+            return "X"
+        return state
+
+    ts = TypeState(prog, calls_of(prog), delta, classify, stmt_event=stmt_event, edge_event=edge_event)
+    ts.all_states = ("M", "O", "R", "X")
+    for m in ("__init__", "_find_next", "next", "skip_to", "skip_to_quality", "reset"):
+        f = prog.lookup(cls, m)
+        if f is None or f.cls is not cls:
+            continue
+        ctx.saw(f)
+        exits = ts.run(f, cls, "M")
+        bad = exits.get("R")
+        ctx.ob(f, bad is None, "no path leaves a part buffered at an unverified position",
+               path=cfgmod.path_text(bad) if bad else None)
